@@ -168,6 +168,31 @@ Section Antecedent.
   Definition last_is_any (hs : list hedgex) : bool :=
     match rev hs with h :: _ => hedgex_is_any h | [] => false end.
 
+  (* ---- Antecedent.postfix(): str(Proposition) = "variable is hedges… term", operators after their operands;
+          as the list of blank-separated tokens *)
+  Definition var_name (e : engine T) (v : varref) : option string :=
+    match v with
+    | VIn i => option_map (@iv_name T) (nth_error (e_inputs e) i)
+    | VOut i => option_map (@ov_name T) (nth_error (e_outputs e) i)
+    end.
+  Definition hedgex_name (h : hedgex) : string := match h with HG h => hedge_name h | HSharp => "sharp" end.
+  Fixpoint postfix_tokens (e : engine T) (node : expr) : result (list string) :=
+    match node with
+    | EProp v hs t =>
+        match var_name e v, var_terms e v with
+        | Some name, Some terms =>
+            match t with
+            | None => Ok (name :: KW_IS :: map hedgex_name hs)
+            | Some k => match nth_error terms k with
+                        | Some tm => Ok (name :: KW_IS :: map hedgex_name hs ++ [term_name tm])
+                        | None => Err EInternal end
+            end
+        | _, _ => Err EInternal
+        end
+    | EOp is_and l r =>
+        do a <- postfix_tokens e l; do b <- postfix_tokens e r; Ok (a ++ b ++ [if is_and then KW_AND else KW_OR])
+    end.
+
   Variable membership : term T -> T -> result T.     (* Term.membership in scalar mode; plugged by the engine model *)
 
   (* Antecedent.activation_degree(conjunction, disjunction, node) *)
